@@ -25,8 +25,9 @@
 //!   counter_value_exact_or_low16, value_carried, flags_carried_not_swapped, time_carried_exact,
 //!   common_time_header_exactly_when_needed, update_creates_event_as_configured, point_added_once,
 //!   read_accepted, reference_f32_rounding_self_check
-//! Known-finding cause predicates: D11 (NaN -> integer variation: 0, flags unchanged), D2 (octet
-//! string at index 65535 in a start-stop header: master-side panic).
+//! Known-finding cause predicates: D11 (NaN -> integer variation: 0, flags unchanged).
+//! (Former finding D2 -- octet string at index 65535 in a start-stop header: master-side panic -- is
+//! repaired; a master-side panic is a plain violation, regression case corpus/C10/convert_D2.ops.)
 use crate::rng::Rng;
 use crate::util::*;
 use dnp3::verif_hooks::convert_probe::ConvertProbe;
@@ -1057,20 +1058,17 @@ pub fn run(ops: &str, out: &mut dyn Write, mon: &mut dyn Write) {
                         let exp = rf.read(&specs, &mut stats);
                         if let Some(pos) = got.iter().position(|l| l == "panic") {
                             // the master side panicked while iterating a received header: nothing after it is
-                            // delivered.  cause predicate of D2: everything before the panic is as expected and
-                            // the object due next is an octet string at index 65535 in a start-stop header
+                            // delivered (no known-finding exemption: any such panic violates the property)
                             dead = true;
                             stats.hit("master_panic");
-                            let before_ok = (0..pos).all(|i| exp.get(i).map(|e| classify(&got[i], e).map(|f| f.0.contains("cause=D11")).unwrap_or(true)).unwrap_or(false));
                             for i in 0..pos {
                                 if let Some(f) = exp.get(i).and_then(|e| classify(&got[i], e)) {
                                     writeln!(mon, "MONITOR-FAIL {hdr} :: {} :: {line} => {}", f.0, f.1).unwrap();
                                     break;
                                 }
                             }
-                            let d2 = before_ok && matches!(exp.get(pos), Some(Exp::M { ty: 7, idx: 65535, g: 110, .. }));
-                            writeln!(mon, "MONITOR-FAIL {hdr} :: every_point_delivered_once_in_order{} :: {line} => master-side panic at delivered line {pos}, due `{}`",
-                                if d2 { " cause=D2" } else { "" }, exp.get(pos).map(|e| e.line()).unwrap_or_default()).unwrap();
+                            writeln!(mon, "MONITOR-FAIL {hdr} :: every_point_delivered_once_in_order :: {line} => master-side panic at delivered line {pos}, due `{}`",
+                                exp.get(pos).map(|e| e.line()).unwrap_or_default()).unwrap();
                             continue;
                         }
                         stats.add("measurements_delivered", got.iter().filter(|l| l.starts_with("m ")).count() as u64);
